@@ -31,6 +31,7 @@ def main():
     name = pid
     checks = [pid]
     thorough = "--thorough" in a
+    racedemo = "-race " if "--race-demo" in a else ""
     if "--name" in a:
         name = a[a.index("--name") + 1]
     if "--checks" in a:
@@ -78,11 +79,11 @@ def main():
         if rc2 != 0:
             meta["suite_output_tail"] = o2[-1500:]
         shutil.copy(demo, os.path.join(wt, demodir, "zz_seeded_demo_test.go"))
-        rc3, o3 = sh("go test -vet=off -count=1 -run 'TestSeeded' ./%s" % demodir, cwd=wt)
+        rc3, o3 = sh("go test %s-vet=off -count=1 -run 'TestSeeded' ./%s" % (racedemo, demodir), cwd=wt)
         meta["confirmed"]["demo_fails_with_patch"] = rc3 != 0 and "FAIL" in o3 and "build failed" not in o3 and "[setup failed]" not in o3
         meta["demo_with_patch_tail"] = o3[-800:]
         sh("git apply -R %s" % patch, cwd=wt)
-        rc4, o4 = sh("go test -vet=off -count=1 -run 'TestSeeded' ./%s" % demodir, cwd=wt)
+        rc4, o4 = sh("go test %s-vet=off -count=1 -run 'TestSeeded' ./%s" % (racedemo, demodir), cwd=wt)
         meta["confirmed"]["demo_passes_without_patch"] = rc4 == 0
         if rc4 != 0:
             meta["demo_without_patch_tail"] = o4[-800:]
